@@ -13,6 +13,7 @@ from AEIC.config.emissions import (
     PMvolMethod,
 )
 from AEIC.performance.models import BasePerformanceModel
+from AEIC.performance.types import ThrustMode
 from AEIC.trajectories.trajectory import Trajectory
 from AEIC.types import Species, SpeciesValues
 
@@ -228,7 +229,7 @@ def _calculate_EI_PMnvol(
 
 def _thrust_percentages_from_categories(thrust_modes: ThrustModeArray):
     """Convert thrust codes into representative ICAO mode percentages."""
-    return np.asarray([c.thrust_percentage for c in thrust_modes])
+    return np.asarray([ThrustMode(c).thrust_percentage for c in thrust_modes])
 
 
 def _trajectory_slice(traj: Trajectory) -> slice:
